@@ -74,7 +74,9 @@ def factsXmlOf (j : Json) : FactsXml :=
   | .ok x =>
     { nilRule := (match getStr x "nilRule" with | "xsdBoolean" => .xsdBoolean | "anyNonEmpty" => .anyNonEmpty | _ => .other),
       xsiTypeCheck := getBool x "xsiTypeCheck", childAttrGuard := getBool x "childAttrGuard",
-      emptyStringText := getBool x "emptyStringText" }
+      emptyStringText := getBool x "emptyStringText",
+      -- the streamed emission path is not exercised by C06 (documents come from the tree path)
+      streamSameTree := (match x.getObjVal? "streamSameTree" with | .ok (Json.bool b) => b | _ => X.streamSameTree) }
   | .error _ => X
 
 def step (j : Json) : Json :=
